@@ -1778,7 +1778,14 @@ class GrammarOnly(O.Oracle):
 
 ORACLES["replay_grammar"] = GrammarOnly
 
-register("C09", run_C09, genok=["gen_templateA_ok", "gen_templateD_ok", "gen_templateR_ok", "gen_templateRsrc_ok", "gen_templateRdst_ok",
+register("C09", run_C09, module="Robotools.Props.C09",
+         theorems=["Robotools.C09." + t for t in ("parse_render", "field_count_ad", "field_count_rd", "step_wf", "run_wf", "every_record_decodes",
+                   "prepareAD_accepts_iff", "prepareAD_rejects", "aspirate_well_carries_args", "dispense_well_carries_args",
+                   "reagent_distribution_carries_args", "rejected_appends_nothing", "set_diti_guard", "set_diti_record",
+                   "decontaminate_guard", "decontaminate_record", "wash_guard")]
+                  + ["Robotools.WF." + t for t in ("prepareAD_spec", "prepareAD_complete", "prepareAD_wf", "commentRecs_wf", "compileRD_spec", "wf_compile")]
+                  + ["Robotools." + t for t in ("parseNat_natDigits", "parseInt_intDigits", "parseFmt2_fmt2", "parse_render_ad", "parse_render_rd")],
+         genok=["gen_templateA_ok", "gen_templateD_ok", "gen_templateR_ok", "gen_templateRsrc_ok", "gen_templateRdst_ok",
                                 "gen_templateComment_ok", "gen_templateWash_ok", "gen_templateWashDiti_ok", "gen_templateDecon_ok",
                                 "gen_templateFlush_ok", "gen_templateCommit_ok", "gen_templateSetDiti_ok", "gen_maxRecordVolume_ok",
                                 "gen_maxTextLen_ok", "gen_washSchemes_ok", "gen_volumeFormat_ok"],
